@@ -10,6 +10,7 @@ import (
 	"sort"
 	"sync"
 	"sync/atomic"
+	"syscall"
 	"time"
 	"unsafe"
 
@@ -78,6 +79,37 @@ func c12builder(id int) avro.CodecBuildFunc {
 	}
 }
 
+type c12VT struct {
+	A int64  `json:"a"`
+	B int64  `json:"b"`
+	G int64  `json:"g"`
+	S string `json:"s"`
+}
+
+type c12variant struct {
+	text   string
+	schema avro.Schema
+	enc    []byte
+}
+
+// a registered map type whose builder delegates to the library's own map codec builder (re-entering the registry)
+type c12RV struct {
+	V int64 `json:"v"`
+}
+type c12RM map[string]c12RV
+type c12RMHolder struct {
+	M c12RM `json:"m"`
+	N int64 `json:"n"`
+}
+
+var c12reentBuilds atomic.Int64
+
+func c12reentBuilder(s avro.Schema, typ reflect.Type, omit bool) (avro.Codec, error) {
+	c12reentBuilds.Add(1)
+	runtime.Gosched() // user code: takes its time
+	return avro.BuildMapCodec(s, typ, omit)
+}
+
 type c12shared struct {
 	// decode/encode with a shared codec
 	ds         *gen.DataSchema
@@ -95,6 +127,11 @@ type c12shared struct {
 	// parsed schema documents with every node kind (fixed, enum, unions, logical types), shared for Marshal
 	docSchemas []avro.Schema
 	docJSON    []string
+	// one Go type under several schemas (field orders x top-level forms), each with the encoding of one value
+	variants []c12variant
+	// holder of a registered map type whose builder re-enters the library
+	reentCodecSchema avro.Schema
+	reentEnc         []byte
 	// a codec that is shared but has never been used before the goroutines start (lazily initialised
 	// state would be initialised concurrently); values include nil pointers to collections
 	coldT     *gen.T
@@ -178,6 +215,48 @@ func c12prepare(c *core.Ctx, r *rand.Rand) *c12shared {
 			js, _ := s.Marshal()
 			sh.schemaJSON = append(sh.schemaJSON, string(js))
 		}
+	}
+	// variants: every order of (a,b,g) with s last, as a bare record, ["null",rec] and [rec,"null"]
+	want := c12VT{A: 10, B: 20, G: 30, S: "x"}
+	perms := [][]string{{"a", "b", "g"}, {"a", "g", "b"}, {"b", "a", "g"}, {"b", "g", "a"}, {"g", "a", "b"}, {"g", "b", "a"}}
+	for _, pm := range perms {
+		rec := `{"type":"record","name":"r","fields":[`
+		var d refavro.Record
+		for _, nm := range append(append([]string{}, pm...), "s") {
+			if nm == "s" {
+				rec += `{"name":"s","type":"string"}`
+				d.Fields = append(d.Fields, want.S)
+			} else {
+				rec += `{"name":"` + nm + `","type":"long"},`
+				d.Fields = append(d.Fields, map[string]int64{"a": want.A, "b": want.B, "g": want.G}[nm])
+			}
+		}
+		rec += "]}"
+		for form := 0; form < 3; form++ {
+			text := []string{rec, `["null",` + rec + `]`, `[` + rec + `,"null"]`}[form]
+			var datum any = &d
+			if form > 0 {
+				datum = &refavro.Union{Branch: 2 - form, Val: &d}
+			}
+			rs, err1 := refavro.ParseSchema([]byte(text))
+			ls, err2 := avro.SchemaFromString(text)
+			if err1 != nil || err2 != nil {
+				continue
+			}
+			enc, err := refavro.Encode(nil, rs, datum, nil)
+			if err != nil {
+				continue
+			}
+			if _, err := ls.Codec(c12VT{}); err != nil {
+				continue // a form the library does not support for a struct target is left out
+			}
+			sh.variants = append(sh.variants, c12variant{text, ls, enc})
+		}
+	}
+	// re-entrant builder
+	if ls, err := avro.SchemaFromString(`{"type":"record","name":"h","fields":[{"name":"m","type":{"type":"map","values":{"type":"record","name":"rv","fields":[{"name":"v","type":"long"}]}}},{"name":"n","type":"long"}]}`); err == nil {
+		sh.reentCodecSchema = ls
+		sh.reentEnc = append(refavro.AppendLong(nil, 1), append(append(refavro.AppendLong(nil, 1), 'k'), append(refavro.AppendLong(nil, 7), append(refavro.AppendLong(nil, 0), refavro.AppendLong(nil, 9)...)...)...)...)
 	}
 	// shared parsed documents: one that is dense in fixed/enum nodes, the rest random
 	dense := &refavro.Schema{Type: "record", ObjectForm: true, Name: "dense", Fields: []refavro.Field{
@@ -319,6 +398,7 @@ func runC12(c *core.Ctx, i int) {
 		c12hookInstalled = true
 		_ = lib.SchemaFor
 		avro.SetVerifHook(c12hook)
+		avro.Register(reflect.TypeOf(c12RM{}), c12reentBuilder)
 		for k, t := range ckTypes {
 			_ = k
 			avro.Register(t, c12builder(0))
@@ -372,7 +452,34 @@ func runC12(c *core.Ctx, i int) {
 			for k := 0; k < opsPer; k++ {
 				kind := ""
 				call := c12clock.Add(1)
-				switch op := gr.IntN(100); {
+				switch op := gr.IntN(108); {
+				case op >= 104 && sh.reentEnc != nil: // a registered builder that re-enters the library while others Register
+					kind = "build-reentrant"
+					codec, err := sh.reentCodecSchema.Codec(c12RMHolder{})
+					if err != nil {
+						fail(kind, err.Error())
+						break
+					}
+					var h c12RMHolder
+					rb.Reset(sh.reentEnc)
+					if err := codec.Read(rb, unsafe.Pointer(&h)); err != nil || h.N != 9 || len(h.M) != 1 || h.M["k"].V != 7 {
+						fail(kind, fmt.Sprintf("decoded %+v err=%v", h, err))
+					}
+					rb.ExtractResourceBank().Close()
+				case op >= 100 && len(sh.variants) > 0: // one Go type under several schemas, built concurrently
+					kind = "build-variant"
+					v := sh.variants[gr.IntN(len(sh.variants))]
+					codec, err := v.schema.Codec(c12VT{})
+					if err != nil {
+						fail(kind, err.Error())
+						break
+					}
+					var got c12VT
+					rb.Reset(v.enc)
+					if err := codec.Read(rb, unsafe.Pointer(&got)); err != nil || got.A != 10 || got.B != 20 || got.G != 30 || got.S != "x" {
+						fail(kind, fmt.Sprintf("codec built for %s decodes its own encoding as %+v err=%v", v.text, got, err))
+					}
+					rb.ExtractResourceBank().Close()
 				case op < 14: // decode with the shared codec into a private target
 					kind = "decode-shared"
 					j := gr.IntN(len(sh.encs))
@@ -482,12 +589,15 @@ func runC12(c *core.Ctx, i int) {
 					}
 				case op < 72: // timestamps with arbitrary zone offsets (cache insertions)
 					kind = "parse-time"
-					off := gr.IntN(2*1439+1) - 1439
-					t := time.Date(2000+gr.IntN(50), time.Month(1+gr.IntN(12)), 1+gr.IntN(28), gr.IntN(24), gr.IntN(60), gr.IntN(60), gr.IntN(1e9), time.FixedZone("", off*60))
-					s := t.Format(time.RFC3339Nano)
-					got, err, pan := libParse(rb, s)
-					if err != nil || pan != nil || !sameTime(got, t) {
-						fail(kind, fmt.Sprintf("%s parsed as %v err=%v", s, got, err))
+					for rep := 0; rep < 48; rep++ { // a burst: goroutines hammer the zone cache with different offsets
+						off := gr.IntN(2*1439+1) - 1439
+						t := time.Date(2000+gr.IntN(50), time.Month(1+gr.IntN(12)), 1+gr.IntN(28), gr.IntN(24), gr.IntN(60), gr.IntN(60), gr.IntN(1e9), time.FixedZone("", off*60))
+						s := t.Format(time.RFC3339Nano)
+						got, err, pan := libParse(rb, s)
+						if err != nil || pan != nil || !sameTime(got, t) {
+							fail(kind, fmt.Sprintf("%s parsed as %v err=%v", s, got, err))
+							break
+						}
 					}
 				case op < 79: // Register a uniquely identifiable builder
 					kind = "register"
@@ -542,7 +652,21 @@ func runC12(c *core.Ctx, i int) {
 		}(g)
 	}
 	close(start)
+	// a round normally takes well under a second. If its goroutines are still not done after three minutes the
+	// process dumps all stacks and kills itself, which the orchestrator treats like its own watchdog (inconclusive,
+	// retried once, the same case twice = no-termination)
+	roundDone := make(chan struct{})
+	go func() {
+		select {
+		case <-roundDone:
+		case <-time.After(3 * time.Minute):
+			buf := make([]byte, 1<<20)
+			fmt.Fprintf(os.Stderr, "C12 round %d: goroutines not finished after 3 minutes\n%s\n", i, buf[:runtime.Stack(buf, true)])
+			syscall.Kill(os.Getpid(), syscall.SIGKILL)
+		}
+	}()
 	wg.Wait()
+	close(roundDone)
 	c12sig.on.Store(false)
 	close(bankCh)
 	closers.Wait()
@@ -654,7 +778,7 @@ func init() {
 		ID:        "C12",
 		Level:     "exploration",
 		Technique: "runtime monitoring: the Go race detector over a mixed concurrent workload with seeded yields at hook points, per-operation comparison with the sequential result, and porcupine linearizability checking of recorded registry histories (register-per-key model)",
-		Rule: "rounds of N in {2,4,8,16,32} goroutines x 24-60 seeded operations each: decode/encode with one shared codec into private targets/buffers, whole ReadFiles whose banks are closed on another goroutine, Encoder[T] on private writers, SchemaForType and Schema.Codec on shared types, timestamp parsing with arbitrary zone offsets, Register/RegisterSchema of uniquely identifiable builders on 4 keys while others build codecs/schemas for them; Marshal of shared parsed schema documents containing every node kind; after each round 6 bursts in which 1-2 registrations race with the first 2-6 codec builds for a brand-new key type (spin barrier, seeded stagger) followed by a build at quiescence; hook function = seeded Gosched/5us sleep between critical sections; " +
+		Rule: "rounds of N in {2,4,8,16,32} goroutines x 24-60 seeded operations each: decode/encode with one shared codec into private targets/buffers, whole ReadFiles whose banks are closed on another goroutine, Encoder[T] on private writers, SchemaForType and Schema.Codec on shared types, timestamp parsing with arbitrary zone offsets, Register/RegisterSchema of uniquely identifiable builders on 4 keys while others build codecs/schemas for them; Marshal of shared parsed schema documents containing every node kind; one Go type built under 18 schema variants (field orders x bare / [null,rec] / [rec,null]) at once; a registered builder that re-enters the library (BuildMapCodec) while others Register; after each round 6 bursts in which 1-2 registrations race with the first 2-6 codec builds for a brand-new key type (spin barrier, seeded stagger) followed by a build at quiescence; hook function = seeded Gosched/5us sleep between critical sections; " +
 			"distinct_nontrivial = distinct interleaving signatures (order of hook-point hits per round)",
 		Explanation: "(1) the race build runs with GORACE=halt_on_error=1: a report kills the child and is a violation (a deliberately racy canary process proves the detector is live); (2) every operation has private inputs, so its result must equal the model/sequential result; (3) registry histories are recorded at the client boundary from one monotonic counter with unique written values and checked per key by porcupine (60 s cap => inconclusive).",
 		Assumptions: []string{"'all interleavings' is restated as the interleavings produced; the evidence reports operations, overlapping operation-kind pairs and distinct signatures"},
